@@ -550,6 +550,35 @@ def build(run):
         case(f"tensor-api/{nm}", (lambda mkr=mkr: ([], lambda o: mkr())), (lambda w, o, c, e, spec=spec: spec(w, c, e)),
              (lambda o, sh=sh: (sh, (), ())), allow_refusal=False)
 
+    # ------------------------------------------------------------------ math functions of COMPLEX LITERALS: the constructor returns the folded value (checked against cmath where
+    # cmath has the function) or keeps the node; it does not fail
+    def complex_literal_mathfunctions():
+        import cmath
+        fns = {"sqrt": (ufl.sqrt, cmath.sqrt), "exp": (ufl.exp, cmath.exp), "ln": (ufl.ln, cmath.log), "cos": (ufl.cos, cmath.cos), "sin": (ufl.sin, cmath.sin), "tan": (ufl.tan, cmath.tan),
+               "cosh": (ufl.cosh, cmath.cosh), "sinh": (ufl.sinh, cmath.sinh), "tanh": (ufl.tanh, cmath.tanh), "acos": (ufl.acos, cmath.acos), "asin": (ufl.asin, cmath.asin),
+               "atan": (ufl.atan, cmath.atan), "erf": (ufl.erf, None)}
+        n = 0
+        for nm_, (fn_, ref_) in fns.items():
+            for z_ in (1 + 1j, -0.5 + 2j, 0.25j, C.ComplexValue(2 - 1j)):
+                n += 1
+                try:
+                    r_ = fn_(z_)
+                except (TypeError, AttributeError, IndexError, KeyError, OverflowError) as ex:
+                    from ufv.core import crash_text
+                    return violated(f"{nm_}({z_!r}) fails while the expression is built: {crash_text(ex)}", replay={"function": nm_, "literal": repr(z_)}, reproduced=True, backend="exec")
+                except ValueError as ex:
+                    from ufv.core import deliberate
+                    if not deliberate(ex):
+                        return violated(f"{nm_}({z_!r}) fails while the expression is built: {ex}", replay={"function": nm_, "literal": repr(z_)}, reproduced=True, backend="exec")
+                    continue
+                if isinstance(r_, C.ScalarValue) and ref_ is not None:
+                    zv = complex(z_._value) if isinstance(z_, C.ScalarValue) else complex(z_)
+                    if abs(complex(r_._value) - ref_(zv)) > 1e-12 * max(1.0, abs(ref_(zv))):
+                        return violated(f"{nm_}({z_!r}) is folded to {r_._value!r}; the value is {ref_(zv)!r}", replay={"function": nm_, "literal": repr(z_)}, reproduced=True, backend="numeric")
+        from ufv.core import bounded_ok
+        return bounded_ok(n, "13 math functions x 4 complex literals; folded values compared with cmath (relative tolerance 1e-12)", sample="constructors of math functions accept complex literals")
+    run.add("math/complex-literal-operands", complex_literal_mathfunctions, kind="bounded")
+
     # ------------------------------------------------------------------ math functions of non-literal operands: whatever the constructor returns (the node, or a
     # folded value when an operand is a zero / a literal) denotes the function of the operands for ALL values of the remaining operands
     def mathfun_cases():
